@@ -1,10 +1,156 @@
-(* C15 proofs, part 1: a quoted GraphQL string whose content is copied between JSON quotation
-   marks with its raw control characters escaped (c15_fix_raw-control-char) is read back by the
-   RFC 8259 string grammar as the value the GraphQL grammar gives it -- provided it has no braced
-   escape. *)
+(* C15 proofs, part 1: a quoted GraphQL string whose content is written between JSON quotation
+   marks by writeJSONValue -- raw control characters escaped (c15_fix_raw-control-char), braced
+   unicode escapes rewritten as one or two four-digit escapes (c15_fix_braced-unicode-escape), the
+   rest copied -- is read back by the RFC 8259 string grammar as the value the GraphQL grammar gives
+   it.  No hypothesis on the string is left. *)
 From Gv Require Import lib.Bytes lib.Gql C15.Unicode C15.Model C15.Spec C15.Diag C15.ProofsEnc.
 From Coq Require Import Lia ZifyN ZifyNat ZifyBool ZArith.
 Open Scope N_scope.
+
+Ltac Zify.zify_post_hook ::= Z.div_mod_to_equations.
+
+Lemma hexval_hexdigit : forall k, k < 16 -> hexval (hexdigit k) = Some k.
+Proof.
+  intros k Hk. unfold hexdigit, hexval, is_digit.
+  destruct (k <? 10) eqn:E.
+  - assert (E1 : (48 <=? 48 + k) && (48 + k <=? 57) = true) by lia. rewrite E1. f_equal. lia.
+  - assert (E1 : (48 <=? 87 + k) && (87 + k <=? 57) = false) by lia. rewrite E1.
+    assert (E2 : (97 <=? 87 + k) && (87 + k <=? 102) = true) by lia. rewrite E2. f_equal. lia.
+Qed.
+
+Lemma hex4v_digits : forall n, n < 65536 ->
+  hex4v (hexdigit (n / 4096)) (hexdigit ((n / 256) mod 16)) (hexdigit ((n / 16) mod 16)) (hexdigit (n mod 16)) = Some n.
+Proof.
+  intros n Hn. unfold hex4v. rewrite !hexval_hexdigit by lia. f_equal. lia.
+Qed.
+
+Lemma json_braced : forall cp X, cp <= 1114111 -> is_surrogate cp = false ->
+  json_str true (92 :: braced_json cp ++ X) = opt_cons (utf8_encode cp) (json_str true X).
+Proof.
+  intros cp X Hmax Hs. unfold braced_json.
+  destruct (65535 <? cp) eqn:Ebig.
+  - (* a surrogate pair *)
+    assert (E1 : (cp <=? 1114111) = true) by lia. rewrite E1.
+    set (hi := 55296 + (cp - 65536) / 1024). set (lo := 56320 + (cp - 65536) mod 1024).
+    assert (Hhi : hi < 65536 /\ is_high_surrogate hi = true) by (unfold hi, is_high_surrogate; lia).
+    assert (Hlo : lo < 65536 /\ is_low_surrogate lo = true) by (unfold lo, is_low_surrogate; lia).
+    assert (Hc : combine_surrogates hi lo = cp) by (unfold combine_surrogates, hi, lo; lia).
+    unfold hex4_of. cbn [app json_str N.eqb Pos.eqb andb].
+    rewrite (hex4v_digits hi (proj1 Hhi)). rewrite (proj2 Hhi).
+    rewrite (hex4v_digits lo (proj1 Hlo)). rewrite (proj2 Hlo). rewrite Hc. reflexivity.
+  - unfold hex4_of. cbn [app json_str N.eqb Pos.eqb].
+    rewrite (hex4v_digits cp ltac:(lia)).
+    assert (Eh : is_high_surrogate cp = false) by (unfold is_surrogate, is_high_surrogate in *; lia).
+    rewrite Eh. reflexivity.
+Qed.
+
+Lemma hex_not_125 : forall b h, hexval b = Some h -> (b =? 125) = false.
+Proof.
+  intros b h. unfold hexval, is_digit.
+  destruct ((48 <=? b) && (b <=? 57)) eqn:E1; [intros _; lia|].
+  destruct ((97 <=? b) && (b <=? 102)) eqn:E2; [intros _; lia|].
+  destruct ((65 <=? b) && (b <=? 70)) eqn:E3; [intros _; lia|discriminate].
+Qed.
+
+Lemma opt_app_some : forall pre o out, opt_app pre o = Some out -> exists t, o = Some t /\ out = pre ++ t.
+Proof. intros pre [t|] out; simpl; intros H; inversion H; eauto. Qed.
+
+Lemma gbrace_inv : forall s acc n out,
+  gql_str (GBrace acc n) s = Some out ->
+  exists hexs tail cp t, s = hexs ++ 125 :: tail /\ parse_hex_acc acc hexs = Some cp /\
+     index_byte 125 s = Some (length hexs) /\ (0 < n + length hexs)%nat /\
+     cp <= 1114111 /\ is_surrogate cp = false /\ gql_str GPlain tail = Some t /\ out = utf8_encode cp ++ t.
+Proof.
+  induction s as [|b r IH]; intros acc n out H; [discriminate H|].
+  cbn [gql_str] in H.
+  destruct (b =? 125) eqn:E125.
+  - destruct (Nat.ltb 0 n && (acc <=? 1114111) && negb (is_surrogate acc)) eqn:Ec; [|discriminate H].
+    apply opt_app_some in H. destruct H as (t & Ht & ->).
+    exists [], r, acc, t. assert (b = 125) by lia. subst b.
+    repeat split; try reflexivity; try lia; try assumption.
+    destruct (is_surrogate acc); [simpl in Ec; lia|reflexivity].
+  - destruct (hexval b) as [h|] eqn:Eh; [|discriminate H].
+    destruct (acc * 16 + h <=? 1114111) eqn:El; [|discriminate H].
+    apply IH in H. destruct H as (hexs & tail & cp & t & -> & Hp & Hi & Hn & Hcp & Hsur & Ht & ->).
+    exists (b :: hexs), tail, cp, t. repeat split; try assumption.
+    + cbn [parse_hex_acc]. rewrite Eh. assert (E : (acc * 16 + h <? 4294967296) = true) by lia. rewrite E. exact Hp.
+    + cbn [index_byte app]. rewrite E125. cbn [app] in Hi. rewrite Hi. reflexivity.
+    + simpl. lia.
+Qed.
+
+(* the braced escape as the model reads it *)
+Lemma braced_escape_valid : forall hexs tail cp, hexs <> [] -> parse_hex_acc 0 hexs = Some cp ->
+  index_byte 125 (hexs ++ 125 :: tail) = Some (length hexs) ->
+  braced_escape (117 :: 123 :: hexs ++ 125 :: tail) = Some (braced_json cp, S (S (S (length hexs)))) /\
+  skipn (S (S (S (length hexs)))) (117 :: 123 :: hexs ++ 125 :: tail) = tail.
+Proof.
+  intros hexs tail cp Hne Hp Hi. split.
+  - unfold braced_escape. cbn [N.eqb Pos.eqb andb index_byte]. rewrite Hi.
+    assert (E : Nat.ltb 2 (S (S (length hexs))) = true) by (destruct hexs; [congruence|simpl; reflexivity]).
+    rewrite E. replace (S (S (length hexs)) - 2)%nat with (length hexs) by lia.
+    rewrite firstn_app. rewrite Nat.sub_diag. cbn [firstn]. rewrite app_nil_r. rewrite firstn_all.
+    unfold parse_hex32. destruct hexs; [congruence|]. rewrite Hp. reflexivity.
+  - cbn [skipn]. clear. induction hexs as [|h hexs IH]; [reflexivity|exact IH].
+Qed.
+
+(* ---- the fuel of quoted_json_body is irrelevant once it covers the text ---- *)
+Lemma qjb_fuel : forall f g s, (length s <= f)%nat -> (length s <= g)%nat ->
+  quoted_json_body f s = quoted_json_body g s.
+Proof.
+  induction f as [|f IH]; intros g s Hf Hg.
+  { destruct s; [|simpl in Hf; lia]. destruct g; reflexivity. }
+  destruct s as [|c r]; [destruct g; reflexivity|].
+  destruct g as [|g]; [simpl in Hg; lia|].
+  simpl in Hf, Hg. cbn [quoted_json_body].
+  destruct (c <? 32). { f_equal. apply IH; lia. }
+  destruct (negb (c =? 92)). { f_equal. apply IH; lia. }
+  destruct r as [|e r1]; [reflexivity|]. simpl in Hf, Hg.
+  destruct (e =? 92). { do 2 f_equal. apply IH; lia. }
+  destruct (braced_escape (e :: r1)) as [[out n]|].
+  - do 2 f_equal. apply IH; rewrite skipn_length; cbn [length]; lia.
+  - f_equal. apply IH; simpl; lia.
+Qed.
+
+Lemma qjb_S : forall f c r, quoted_json_body (S f) (c :: r) =
+  if c <? 32 then [92; 117; 48; 48; hexdigit (c / 16); hexdigit (c mod 16)] ++ quoted_json_body f r
+  else if negb (c =? 92) then c :: quoted_json_body f r
+  else match r with
+       | [] => [c]
+       | e :: r1 =>
+         if e =? 92 then c :: 92 :: quoted_json_body f r1
+         else match braced_escape r with
+              | Some (out, n) => c :: out ++ quoted_json_body f (skipn n r)
+              | None => c :: quoted_json_body f r
+              end
+       end.
+Proof. reflexivity. Qed.
+
+Lemma qj_ctl : forall c r, (c <? 32) = true ->
+  quoted_json (c :: r) = [92; 117; 48; 48; hexdigit (c / 16); hexdigit (c mod 16)] ++ quoted_json r.
+Proof. intros c r H. unfold quoted_json. cbn [length]. rewrite qjb_S, H. reflexivity. Qed.
+Lemma qj_plain : forall c r, (c <? 32) = false -> (c =? 92) = false -> quoted_json (c :: r) = c :: quoted_json r.
+Proof. intros c r H1 H2. unfold quoted_json. cbn [length]. rewrite qjb_S, H1, H2. reflexivity. Qed.
+Lemma qj_bsbs : forall r1, quoted_json (92 :: 92 :: r1) = 92 :: 92 :: quoted_json r1.
+Proof.
+  intros r1. unfold quoted_json. cbn [length]. rewrite qjb_S. cbn [N.ltb N.compare Pos.compare Pos.compare_cont N.eqb Pos.eqb negb].
+  do 2 f_equal. apply qjb_fuel; lia.
+Qed.
+Lemma qj_bs_other : forall e r1, (e =? 92) = false -> braced_escape (e :: r1) = None ->
+  quoted_json (92 :: e :: r1) = 92 :: quoted_json (e :: r1).
+Proof.
+  intros e r1 He Hb. unfold quoted_json. cbn [length]. rewrite qjb_S. cbn [N.ltb N.compare Pos.compare Pos.compare_cont N.eqb Pos.eqb negb].
+  rewrite He, Hb. reflexivity.
+Qed.
+Lemma qj_bs_braced : forall e r1 out n, (e =? 92) = false -> braced_escape (e :: r1) = Some (out, n) ->
+  quoted_json (92 :: e :: r1) = 92 :: out ++ quoted_json (skipn n (e :: r1)).
+Proof.
+  intros e r1 out n He Hb. unfold quoted_json. cbn [length]. rewrite qjb_S. cbn [N.ltb N.compare Pos.compare Pos.compare_cont N.eqb Pos.eqb negb].
+  rewrite He, Hb. do 2 f_equal. apply qjb_fuel; rewrite ?skipn_length; cbn [length]; unfold bytes, byte in *; lia.
+Qed.
+Lemma braced_none_e : forall e r1, (e =? 117) = false -> braced_escape (e :: r1) = None.
+Proof. intros e r1 H. unfold braced_escape. destruct r1; [reflexivity|]. rewrite H. reflexivity. Qed.
+Lemma braced_none_a : forall a r, (a =? 123) = false -> braced_escape (117 :: a :: r) = None.
+Proof. intros a r H. unfold braced_escape. rewrite H. rewrite Bool.andb_false_r. reflexivity. Qed.
 
 Lemma hexval_not_special : forall b h, hexval b = Some h ->
   (b =? 92) = false /\ (b =? 123) = false /\ (b =? 34) = false /\ (32 <=? b) = true.
@@ -18,7 +164,6 @@ Proof.
   { intros _. repeat split; lia. }
   discriminate.
 Qed.
-
 Lemma hex4v_inv : forall a b c d cp, hex4v a b c d = Some cp ->
   exists x y z w, hexval a = Some x /\ hexval b = Some y /\ hexval c = Some z /\ hexval d = Some w.
 Proof.
@@ -26,44 +171,10 @@ Proof.
   destruct (hexval a), (hexval b), (hexval c), (hexval d); try discriminate.
   intros _. eauto 10.
 Qed.
-
-Lemma no_brace_u : forall b e a r, (b =? 92) = true -> (e =? 117) = true ->
-  no_brace_escape (b :: e :: a :: r) = if a =? 123 then false else no_brace_escape (a :: r).
-Proof. intros b e a r E1 E2. cbn [no_brace_escape]. rewrite E1, E2. reflexivity. Qed.
-Lemma no_brace_esc : forall b e r, (b =? 92) = true -> (e =? 117) = false ->
-  no_brace_escape (b :: e :: r) = no_brace_escape r.
-Proof. intros b e r E1 E2. cbn [no_brace_escape]. rewrite E1, E2. reflexivity. Qed.
-Lemma no_brace_plain : forall b r, (b =? 92) = false -> no_brace_escape (b :: r) = no_brace_escape r.
-Proof. intros b r E1. cbn [no_brace_escape]. rewrite E1. reflexivity. Qed.
-
-Lemma no_brace_skip_hex : forall b h r, hexval b = Some h -> no_brace_escape (b :: r) = no_brace_escape r.
-Proof.
-  intros b h r H. destruct (hexval_not_special _ _ H) as (E & _). apply no_brace_plain. exact E.
-Qed.
-
-Lemma has_raw_ctl_cons : forall b r, has_raw_ctl (b :: r) = false -> (b <? 32) = false /\ has_raw_ctl r = false.
-Proof. intros b r. unfold has_raw_ctl. simpl. intros H. apply Bool.orb_false_iff in H. exact H. Qed.
-
+Lemma qj_hex : forall b h r, hexval b = Some h -> quoted_json (b :: r) = b :: quoted_json r.
+Proof. intros b h r H. destruct (hexval_not_special _ _ H) as (E1 & _ & _ & E4). apply qj_plain; lia. Qed.
 Lemma escaped_char_same : forall e, json_escaped_char e = gql_escaped_char e.
 Proof. reflexivity. Qed.
-
-Lemma opt_app_some : forall pre o out, opt_app pre o = Some out -> exists t, o = Some t /\ out = pre ++ t.
-Proof. intros pre [t|] out; simpl; intros H; inversion H; eauto. Qed.
-
-(* ctl-freeness of a suffix after dropping k bytes *)
-Lemma has_raw_ctl_skipn : forall k s, has_raw_ctl s = false -> has_raw_ctl (skipn k s) = false.
-Proof.
-  induction k; intros s H; simpl; auto.
-  destruct s; auto. apply has_raw_ctl_cons in H. apply IHk. tauto.
-Qed.
-
-Lemma escape_ctl_hi : forall b r, (b <? 32) = false -> escape_ctl (b :: r) = b :: escape_ctl r.
-Proof. intros b r H. cbn [escape_ctl]. rewrite H. reflexivity. Qed.
-Lemma escape_ctl_lo : forall b r, (b <? 32) = true ->
-  escape_ctl (b :: r) = [92; 117; 48; 48; hexdigit (b / 16); hexdigit (b mod 16)] ++ escape_ctl r.
-Proof. intros b r H. cbn [escape_ctl]. rewrite H. reflexivity. Qed.
-Lemma hex_hi : forall b h, hexval b = Some h -> (b <? 32) = false.
-Proof. intros b h H. destruct (hexval_not_special _ _ H) as (_ & _ & _ & E). lia. Qed.
 Lemma escaped_char_hi : forall e c, gql_escaped_char e = Some c -> (e <? 32) = false.
 Proof.
   intros e c. unfold gql_escaped_char.
@@ -71,14 +182,21 @@ Proof.
   discriminate.
 Qed.
 
+Ltac rw H := let HH := fresh "HH" in pose proof H as HH; unfold bytes, byte in HH |- *; rewrite HH; clear HH.
+
+Ltac useIH IHn r t rest Hg :=
+  let E := fresh "E" in
+  assert (E : json_str true (quoted_json r ++ 34 :: rest) = Some (t, rest))
+    by (apply IHn; [unfold bytes, byte in *; simpl in *; try rewrite app_length in *; simpl in *; lia | exact Hg]);
+  unfold bytes, byte in *; rewrite E; reflexivity.
+
 Theorem quoted_string_agrees :
   forall n raw out rest,
     (length raw <= n)%nat ->
     gql_str GPlain raw = Some out ->
-    no_brace_escape raw = true ->
-    json_str true (escape_ctl raw ++ 34 :: rest) = Some (out, rest).
+    json_str true (quoted_json raw ++ 34 :: rest) = Some (out, rest).
 Proof.
-  induction n; intros raw out rest Hlen Hg Hb.
+  induction n; intros raw out rest Hlen Hg.
   { destruct raw; [|simpl in Hlen; lia]. simpl in Hg. inversion Hg. reflexivity. }
   destruct raw as [|b r].
   { simpl in Hg. inversion Hg. reflexivity. }
@@ -86,26 +204,30 @@ Proof.
   cbn [gql_str] in Hg.
   destruct (b =? 92) eqn:Eb.
   - (* an escape *)
+    assert (b = 92) by lia. subst b.
     destruct r as [|e r1]; [discriminate|].
     simpl in Hlen.
-    rewrite escape_ctl_hi by lia.
     destruct (e =? 117) eqn:Ee.
-    + rewrite (escape_ctl_hi e) by lia.
+    + assert (e = 117) by lia. subst e.
       destruct r1 as [|a r2]; [discriminate|].
       destruct (a =? 123) eqn:Ea.
-      { rewrite (no_brace_u _ _ _ _ Eb Ee), Ea in Hb. discriminate. }
+      { (* the braced form *)
+        assert (a = 123) by lia. subst a.
+        apply gbrace_inv in Hg.
+        destruct Hg as (hexs & tail & cp & t & -> & Hp & Hi & Hn & Hcp & Hsur & Ht & ->).
+        assert (Hne : hexs <> []) by (destruct hexs; [simpl in Hn; lia|discriminate]).
+        destruct (braced_escape_valid hexs tail cp Hne Hp Hi) as [Hbe Hsk].
+        rw (qj_bs_braced 117 (123 :: hexs ++ 125 :: tail) _ _ eq_refl Hbe). rw Hsk.
+        cbn [app]. rewrite <- app_assoc. rewrite json_braced by assumption.
+        useIH IHn tail t rest Ht. }
       destruct r2 as [|b2 [|c2 [|d2 r3]]]; try discriminate.
       destruct (hex4v a b2 c2 d2) as [cp|] eqn:Eh; [|discriminate].
       destruct (hex4v_inv _ _ _ _ _ Eh) as (x & y & z & w & Ha & Hb2 & Hc2 & Hd2).
-      assert (Hb3 : no_brace_escape r3 = true).
-      { rewrite (no_brace_u _ _ _ _ Eb Ee), Ea in Hb.
-        rewrite (no_brace_skip_hex _ _ _ Ha), (no_brace_skip_hex _ _ _ Hb2), (no_brace_skip_hex _ _ _ Hc2), (no_brace_skip_hex _ _ _ Hd2) in Hb.
-        exact Hb. }
       simpl in Hlen.
-      rewrite (escape_ctl_hi a), (escape_ctl_hi b2), (escape_ctl_hi c2), (escape_ctl_hi d2) by (eapply hex_hi; eassumption).
-      cbn [app json_str]. rewrite Eb.
-      assert (E34 : (b =? 34) = false) by lia. rewrite E34.
-      rewrite Ee. rewrite Eh. cbn [negb].
+      rw (qj_bs_other 117 _ eq_refl (braced_none_a a (b2 :: c2 :: d2 :: r3) Ea)).
+      rw (fun r => qj_plain 117 r eq_refl eq_refl).
+      rw (fun r => qj_hex _ _ r Ha). rw (fun r => qj_hex _ _ r Hb2). rw (fun r => qj_hex _ _ r Hc2). rw (fun r => qj_hex _ _ r Hd2).
+      cbn [app json_str N.eqb Pos.eqb]. rewrite Eh.
       destruct (is_high_surrogate cp) eqn:Ehs.
       * destruct r3 as [|x1 [|x2 [|a' [|b' [|c' [|d' r4]]]]]]; try discriminate.
         destruct ((x1 =? 92) && (x2 =? 117)) eqn:Ex; [|discriminate].
@@ -113,45 +235,44 @@ Proof.
         destruct (is_low_surrogate lo) eqn:Els; [|discriminate].
         apply opt_app_some in Hg. destruct Hg as (t & Hg & ->).
         destruct (hex4v_inv _ _ _ _ _ Eh2) as (x' & y' & z' & w' & Ha' & Hb' & Hc' & Hd').
-        assert (Hb4 : no_brace_escape r4 = true).
-        { apply Bool.andb_true_iff in Ex. destruct Ex as [Ex1 Ex2].
-          destruct (hexval_not_special _ _ Ha') as (_ & E123 & _).
-          rewrite (no_brace_u _ _ _ _ Ex1 Ex2), E123 in Hb3.
-          rewrite (no_brace_skip_hex _ _ _ Ha'), (no_brace_skip_hex _ _ _ Hb'), (no_brace_skip_hex _ _ _ Hc'), (no_brace_skip_hex _ _ _ Hd') in Hb3.
-          exact Hb3. }
-        rewrite (escape_ctl_hi x1), (escape_ctl_hi x2) by lia.
-        rewrite (escape_ctl_hi a'), (escape_ctl_hi b'), (escape_ctl_hi c'), (escape_ctl_hi d') by (eapply hex_hi; eassumption).
-        cbn [app]. rewrite Ex, Eh2, Els.
-        rewrite (IHn r4 t rest); [reflexivity| simpl in Hlen; lia | exact Hg | exact Hb4].
+        assert (x1 = 92 /\ x2 = 117) as [-> ->] by lia.
+        destruct (hexval_not_special _ _ Ha') as (_ & E123 & _).
+        rw (qj_bs_other 117 _ eq_refl (braced_none_a a' (b' :: c' :: d' :: r4) E123)).
+        rw (fun r => qj_plain 117 r eq_refl eq_refl).
+        rw (fun r => qj_hex _ _ r Ha'). rw (fun r => qj_hex _ _ r Hb'). rw (fun r => qj_hex _ _ r Hc'). rw (fun r => qj_hex _ _ r Hd').
+        cbn [app N.eqb Pos.eqb andb]. rewrite Eh2, Els.
+        useIH IHn r4 t rest Hg.
       * destruct (is_low_surrogate cp) eqn:Els; [discriminate|].
         apply opt_app_some in Hg. destruct Hg as (t & Hg & ->).
-        rewrite (IHn r3 t rest); [reflexivity| lia | exact Hg | exact Hb3].
+        useIH IHn r3 t rest Hg.
     + destruct (gql_escaped_char e) as [c|] eqn:Eg; [|discriminate].
       apply opt_app_some in Hg. destruct Hg as (t & Hg & ->).
-      assert (Hb1 : no_brace_escape r1 = true).
-      { rewrite (no_brace_esc _ _ _ Eb Ee) in Hb. exact Hb. }
-      rewrite (escape_ctl_hi e) by (eapply escaped_char_hi; eassumption).
-      cbn [app json_str]. rewrite Eb.
-      assert (E34 : (b =? 34) = false) by lia. rewrite E34.
-      rewrite Ee. rewrite escaped_char_same, Eg.
-      rewrite (IHn r1 t rest); [reflexivity| lia | exact Hg | exact Hb1].
+      destruct (e =? 92) eqn:E92.
+      * assert (e = 92) by lia. subst e. rw qj_bsbs.
+        cbn [app json_str N.eqb Pos.eqb]. rewrite escaped_char_same, Eg.
+        useIH IHn r1 t rest Hg.
+      * rw (qj_bs_other e r1 E92 (braced_none_e e r1 Ee)).
+        rw (qj_plain e r1 (escaped_char_hi _ _ Eg) E92).
+        cbn [app json_str N.eqb Pos.eqb]. rewrite Ee. rewrite escaped_char_same, Eg.
+        useIH IHn r1 t rest Hg.
   - (* a plain character *)
     destruct ((b =? 34) || (b =? 10) || (b =? 13)) eqn:Eq; [discriminate|].
     apply opt_app_some in Hg. destruct Hg as (t & Hg & ->).
-    assert (Hb1 : no_brace_escape r = true).
-    { rewrite (no_brace_plain _ _ Eb) in Hb. exact Hb. }
     destruct (b <? 32) eqn:Hb32.
     + (* a raw control character, written as an escape *)
-      rewrite (escape_ctl_lo _ _ Hb32). rewrite <- app_assoc.
+      rw (qj_ctl b r Hb32). rewrite <- app_assoc.
       rewrite ctl_escape_read by lia.
-      assert (E := IHn r t rest ltac:(lia) Hg Hb1).
-      unfold bytes, byte in *. rewrite E. reflexivity.
-    + rewrite (escape_ctl_hi _ _ Hb32).
+      useIH IHn r t rest Hg.
+    + rw (qj_plain b r Hb32 Eb).
       cbn [app json_str]. rewrite Eb.
       assert (E34 : (b =? 34) = false) by lia. rewrite E34.
       rewrite Hb32. cbn [andb].
-      rewrite (IHn r t rest); [reflexivity| lia | exact Hg | exact Hb1].
+      useIH IHn r t rest Hg.
 Qed.
+
+Theorem quoted_string_preserved_proof : forall raw out rest,
+  gql_str GPlain raw = Some out -> json_str true (quoted_json raw ++ 34 :: rest) = Some (out, rest).
+Proof. intros raw out rest H. apply (quoted_string_agrees (length raw)); [apply le_n|exact H]. Qed.
 
 (* names and other plain ASCII runs *)
 Definition plain_byte (b : byte) : bool := (32 <=? b) && negb (b =? 34) && negb (b =? 92).
